@@ -414,6 +414,13 @@ EXTRA = [
     ('TTU64', lambda n: [Member(n, 'TTU64')]),
     ('TTU64[2]', lambda n: [Member(n, 'TTU64', FIXED, 2)]),
 ]
+# every scalar type in every member form (the palette holds a sample of them only)
+for _t in SCALARS:
+    for _tag, _mk in ((_t, lambda n, t=_t: [Member(n, t)]), (_t + '*', lambda n, t=_t: [Member(n, t, OPTIONAL)]),
+                      (_t + '[2]', lambda n, t=_t: [Member(n, t, FIXED, 2)]), (_t + '<>', lambda n, t=_t: [Member(n, t, DYNAMIC)]),
+                      (_t + '<3>', lambda n, t=_t: [Member(n, t, LIMITED, 3)])):
+        if _tag not in PALETTE_MAP and _tag not in dict(EXTRA):
+            EXTRA.append((_tag, _mk))
 EXTRA_MAP = dict(EXTRA)
 
 GREEDY_TAILS = [
